@@ -674,7 +674,7 @@ func Run(tier string) int {
 	res.Sample(map[string]any{"stateful": []string{"liquidate(V>A,half)", "time(+6)", "redeem(aLIQUID0,A>V2,half)"}, "pure": "periods=[{1 3aISLM} {2 3aISLM,7other} {3 4aISLM}] subtrahend=0..11"})
 	return engine.Finish(res, engine.Meta{
 		Property: Prop, Tier: tier, Level: "model_checking", Start: start, Replayer: Replay,
-		Rule:   "pure: all period lists <=3 periods with amounts 0..4 (thorough 0..6), optional second denomination, every subtrahend 0..total+1; stateful: DFS with digest dedup over all sequences <= depth of liquidate/transfer/redeem/time-jump among 2-3 vesting accounts and 1-2 plain holders; non-trivial = successful liquidate/redeem distinct by (account, amount, time, schedule)",
+		Rule:   "pure: all period lists <=3 periods with amounts 0..4 (thorough 0..6), optional second denomination, every subtrahend 0..total+1; stateful (future locked amounts of accounts read through GetLockedUpCoins of the stored account object): DFS with digest dedup over all sequences <= depth of liquidate/transfer/redeem/time-jump among 2-3 vesting accounts and 1-2 plain holders; non-trivial = successful liquidate/redeem distinct by (account, amount, time, schedule)",
 		Bounds: map[string]any{"stateful_depth": depth},
 		Assumptions: []string{
 			"messages through the msg-service router on cache contexts; block time set on the branch header",
